@@ -53,6 +53,8 @@ pub(crate) fn output_declaration_net(s: Span) -> IResult<Span, OutputDeclaration
     let (s, a) = keyword("output")(s)?;
     let (s, b) = net_port_type(s)?;
     let (s, c) = list_of_port_identifiers(s)?;
+    // an initializer belongs to the variable form ("output reg q = 0")
+    let (s, _) = not(symbol("="))(s)?;
     Ok((
         s,
         OutputDeclaration::Net(Box::new(OutputDeclarationNet { nodes: (a, b, c) })),
